@@ -269,6 +269,27 @@ func c16Native(r *Run, t *tape.Tape) {
 	if lz {
 		r.Probe("native-signature-leading-zero-verified")
 	}
+	// the same signer through a message object taken from a pool (signature
+	// slot: an empty slice with capacity left from a smaller curve): the
+	// stored signature has the full fixed width all the same
+	if t.Bool(1, 3, "c16.recycled") {
+		capv := []int{1, 32, 64, 96}[t.Choose(4, "c16.recycled.cap")]
+		m := &cose.Sign1Message{Headers: cose.Headers{Protected: cose.ProtectedHeader{cose.HeaderLabelAlgorithm: cose.Algorithm(k.Alg)}}, Payload: content, Signature: make([]byte, 0, capv)}
+		var merr error
+		r.Lib(func() { merr = m.Sign(NewEntropy(tape.Mix(seed, 77)), nil, signer) })
+		r.Check()
+		if merr != nil || len(m.Signature) != 2*size {
+			r.Fail("ecdsa-signature-not-fixed-width/recycled-message/"+name, "Sign on a message whose signature slot is an empty slice of capacity %d: %v, stored signature has %d bytes, want %d", capv, merr, len(m.Signature), 2*size)
+			return
+		}
+		var verr2 error
+		r.Lib(func() { verr2 = m.Verify(nil, verifier) })
+		if verr2 != nil {
+			r.Fail("ecdsa-signature-not-fixed-width/recycled-message/"+name, "the signature stored in a recycled message object does not verify: %v (%x)", verr2, m.Signature)
+			return
+		}
+		r.Probe("recycled-message-object-signed")
+	}
 	// byte compatibility: the same (r, s) through the crypto.Signer path
 	rr, ss := new(big.Int).SetBytes(sig[:size]), new(big.Int).SetBytes(sig[size:])
 	hsm := &HSM{Key: priv, Mode: "chosen", R: rr, S: ss}
